@@ -6,5 +6,5 @@ From FJ Require Import Model.Num Model.Tensor Model.Bij.
 Extraction Language OCaml.
 Cd "../ocaml/gen".
 Extraction "bij.ml" run_meth run den sig_of flatten unflatten tshape has_shape
-  stack_shape_old vmap_cshape_old merge_chains chain_slice resolve_idx idx_shape idx_supported.
+  stack_shape_old vmap_cshape_old merge_chains chain_slice is_chain resolve_idx idx_shape idx_supported.
 Cd "../../coq".
